@@ -14,9 +14,12 @@
 (*   Exec(r, argv, env, items, cvd)   the executable ran on rank r and saw *)
 (*                         this argv / environment / cwd                   *)
 (*   RankExit(r, code)     exit code of rank r's exec script (MPI stand-in)*)
-(*   LaunchExit(code, out_has, err_has)  exit code of the launch script,   *)
-(*                         whether the described stdout / stderr files     *)
-(*                         hold what rank r wrote                          *)
+(*   LaunchExit(code, out_at, err_at)  exit code of the launch script and, *)
+(*                         per rank, every file in which the text that     *)
+(*                         rank wrote to stdout / stderr was found         *)
+(* The trace also carries the task sandbox, the uid, the concrete names    *)
+(* used for the "rel" / "abs" kinds and task['stdout_file'] /              *)
+(* task['stderr_file'] as the executor left them.                          *)
 (*                                                                         *)
 (* The monitor is total.  A failing clause is added to errs as             *)
 (* "C10.<Clause>"; observations on the token classes that the shell        *)
@@ -42,7 +45,7 @@ C == [ranks |-> T.cfg.ranks, lm |-> T.cfg.lm,
       post  |-> [i \in 1 .. Len(T.cfg.post) |-> ToEntry(T.cfg.post[i])],
       prel  |-> T.cfg.prel, postl |-> T.cfg.postl, sync |-> T.cfg.sync,
       argv  |-> T.cfg.argv, env |-> T.cfg.env, omp |-> T.cfg.omp,
-      gpr   |-> T.cfg.gpr, out |-> T.cfg.out]
+      gpr   |-> T.cfg.gpr, out |-> T.cfg.out, err |-> T.cfg.err]
 FF  == {Exe(f.sig, f.i, f.r) : f \in SeqSet(T.F)}
 X   == LaunchRun(C, FF, T.xrc)                  \* the spec's observable for this run
 All == Ranks(C) \cup {L}
@@ -53,6 +56,18 @@ Expect(r) == IF r = L THEN X.ran
 E(cond, name) == IF cond THEN {} ELSE {name}
 MinOf(S) == CHOOSE q \in S : \A q2 \in S : q <= q2
 Sev(cls) == IF cls \in Alarmed THEN "C10." ELSE "I10."
+
+\* the described file of a stream as a path of this run
+PathOf(f, rel, abs) ==
+  IF f.dir = "sandbox"
+  THEN T.sbox \o "/" \o (IF f.name = "custom" THEN rel ELSE T.uid \o (IF f.name = "uid.out" THEN ".out" ELSE ".err"))
+  ELSE abs
+WantOut == PathOf(X.out, T.names.out_rel, T.names.out_abs)
+WantErr == PathOf(X.err, T.names.err_rel, T.names.err_abs)
+
+\* the text rank i wrote is in the described file (missing) and nowhere else
+StreamErrs(at, want, missing, elsewhere) ==
+  E(want \in SeqSet(at), missing) \cup E(SeqSet(at) \subseteq {want}, elsewhere)
 
 Init ==
   /\ tid \in 1 .. Len(Traces)
@@ -140,11 +155,14 @@ Step ==
                           THEN E(e.code = X.code, "C10.LaunchExitCode")
                           ELSE E(e.code # 0, "C10.LaunchFailureNotReported"))
                     \cup (IF X.launched
-                          THEN UNION {IF X.ranks[i].execd
-                                      THEN E(i <= Len(e.out_has) /\ e.out_has[i], "C10.Stdout")
-                                           \cup E(i <= Len(e.err_has) /\ e.err_has[i], "C10.Stderr")
+                          THEN UNION {IF X.ranks[i].execd /\ i <= Len(e.out_at) /\ i <= Len(e.err_at)
+                                      THEN StreamErrs(e.out_at[i], WantOut, "C10.Stdout", "C10.StdoutElsewhere")
+                                           \cup StreamErrs(e.err_at[i], WantErr, "C10.Stderr", "C10.StderrElsewhere")
                                       ELSE {} : i \in 1 .. C.ranks}
                           ELSE {})
+                    \* the task dict names the described files for the later stages
+                    \cup E(T.task_out = WantOut, "C10.TaskStdoutFile")
+                    \cup E(T.task_err = WantErr, "C10.TaskStderrFile")
                /\ UNCHANGED <<pos, seen, prefailed>>
           [] OTHER ->
                /\ errs' = errs \cup {"X.UnknownEvent"}
